@@ -186,6 +186,15 @@ func WorkerMain() int {
 				fmt.Fprintln(os.Stderr, "worker: bad job:", e)
 				return 2
 			}
+			vsched.OnStall = func(_ *vsched.Sched, where string) {
+				// the verdict for this job; the process cannot go on (the spinning goroutine cannot be stopped)
+				st := Stats{Outcomes: map[string]int{}, BoundDone: -1}
+				b, _ := json.Marshal(JobResult{Job: j, Stats: st, Violations: SpinViolations(where), WorkerGone: true})
+				out.Write(b)
+				out.WriteByte('\n')
+				out.Flush()
+				os.Exit(0)
+			}
 			r := runJob(j)
 			b, _ := json.Marshal(r)
 			out.Write(b)
@@ -282,7 +291,7 @@ func runJobs(jobs []Job, nworkers int) ([]JobResult, string) {
 				}
 				resCh <- r
 				n++
-				if n%200 == 0 { // recycle the worker process now and then
+				if r.WorkerGone || n%200 == 0 { // recycle the worker process now and then (and when it had to give itself up)
 					closeIn()
 					cmd.Wait()
 					if e := start(); e != nil {
@@ -636,6 +645,18 @@ func ReplayMain(args []string) int {
 	InitWorkRoot()
 	defer CleanupWorkRoot()
 	sc := mk(v.Params)
+	vsched.OnStall = func(_ *vsched.Sched, where string) {
+		for _, sv := range SpinViolations(where) {
+			if sv.Property == v.Property {
+				fmt.Printf("violation: property=%s signature=%q\n  %s\n", sv.Property, sv.Signature, sv.Detail)
+				if strings.HasPrefix(v.Signature, "a thread of the code under test spins") {
+					fmt.Printf("VIOLATION property=%s replay=%s\n", v.Property, args[0])
+					CleanupWorkRoot()
+					os.Exit(1)
+				}
+			}
+		}
+	}
 	r := RunOnce(sc, v.Choices, true, nil)
 	for _, l := range r.Trace {
 		fmt.Println(l)
